@@ -296,6 +296,13 @@ func replayNative(ld *loaded, spec *Spec, hs HarnessSpec, v *Violation, path str
 		}
 		return false, fmt.Sprintf("native scenario %s passed (log %v)", fn, r.Log)
 	}
+	if v.Kind != "panic" {
+		for _, l := range r.Log {
+			if l == "assert:"+v.Msg+"=false" {
+				return true, "native assertion failed: " + v.Msg
+			}
+		}
+	}
 	if strings.HasPrefix(r.Panic, "verif:") {
 		return false, "native replay diverged from the engine path: " + r.Panic
 	}
@@ -411,6 +418,9 @@ func vDraw(tag, kind string, w int) uint64 {
 		return v
 	}
 	if vSt.at >= len(vSt.in) {
+		if vSt.failed {
+			panic(vAssumeFail{}) // the counterexample ends at the failed assertion
+		}
 		panic("verif: ran out of replay values at " + tag)
 	}
 	r := vSt.in[vSt.at]
@@ -457,6 +467,9 @@ func vChoose(tag string, lo, hi int) int {
 		return v
 	}
 	if vSt.at >= len(vSt.in) {
+		if vSt.failed {
+			panic(vAssumeFail{})
+		}
 		panic("verif: ran out of replay values at choose " + tag)
 	}
 	r := vSt.in[vSt.at]
